@@ -13,6 +13,7 @@ func init() {
 			"changed token / TTL by >=1s / key byte / hash digit, signature removed, shortened, lengthened or structurally damaged; " +
 			"oracle = HMAC-SHA1 written over crypto/sha1 (RFC 2104) + hand-written locator parser, recomputed for every presentation; Python hmac transcription of blob.rb cross-checks the signer and 11 presentations of every case; " +
 			"keepstore cases = real router with BlobSigning on over a Directory volume holding the blocks, GET over loopback HTTP for the same presentations plus other/no token and a signature transplanted from another stored block, PUT-returned locator; " +
+			"remote cases (+R hint and no +A: verification delegated to the remote cluster) = one keepstore with BlobSigning on and two stub remote clusters (own key/TTL, reference verifier, every delivered block recorded with the token it was delivered to); 8-14 requests by two users / no token, GET/HEAD, with and without X-Keep-Signature: local, block absent / stored locally / localized by an earlier request, hint valid for the caller, replayed from the other user, made up, one digit changed, expired, for another hash, for another / unknown remote, malformed; data, 2xx or a verifying X-Keep-Locator only if the remote delivered exactly this hash to exactly this caller's salted token during the request; an issued local signature must be the reference one and serve this caller only; " +
 			"manifest cases = grammar-generated manifests (1-6 streams, locators with hints and 0-2 old signatures, hostile stream/file names) through SignManifest, compared token by token; " +
 			"non-trivial = every case (trivial: the unjudged TTL-fraction observation); distinct = distinct (expiry kind, size?, #hints before/after, token class, key-length class, TTL whole/sub-second) tuples",
 		Assume: []string{
